@@ -87,7 +87,7 @@ def required(tier):
     return {
         "ctor_cases": 4000 if t else 800, "ctor_forms": 11, "neg_rejected": 400 if t else 100,
         "conv_mult_pairs": 7500, "conv_offset_pairs": 40, "conv_family_calls": 1000,
-        "rel_invariance_checks": 8000, "conv_log_attempts": 14,
+        "rel_invariance_checks": 8000, "conv_correlation_checks": 5000, "conv_log_attempts": 14,
         "arith_binary": 20000 if t else 3000, "arith_sigma_checked": 20000 if t else 3000,
         "bare_uncertain_zero_operands": 100, "arith_kinds": 80, "arith_trees_checked": 5000 if t else 600, "arith_offset_cases": 300,
         "parse_cases": 10000 if t else 1500, "parse_classes": 250, "parse_embedded": 1000 if t else 200,
@@ -450,6 +450,20 @@ def run_conv(spec, rec):
                                     or m.units != env.ureg.Unit(a)):
                 rec.violation("conv-mutated-source", dict(ctx, after=repr(m)), **fields)
             check_converted(env, m, r, plain, v, e, ratio, v * ratio, ctx, fields)
+            if e > 0:
+                # the converted measurement is the SAME uncertain value in another unit (identical units
+                # included): its difference from the source is exactly zero, with no uncertainty left
+                rec.count("conv_correlation_checks")
+                try:
+                    sd = nomsd(r - m)[1]
+                except Exception as ex:  # noqa: BLE001
+                    rec.violation("conv-raised", dict(ctx, err=repr(ex), step="converted - source"),
+                                  err=type(ex).__name__, **fields)
+                else:
+                    if not (abs(sd) <= 1e-9 * e * abs(ratio)):
+                        rec.violation("conv-correlation-lost", dict(ctx, sigma_of_difference=sd,
+                                                                    sigma_of_source_in_target_units=e * abs(ratio)),
+                                      identical_units=(a == b), **fields)
     rec.sample({"pair": mine[len(mine) // 2], "ratio": env.fac[mine[len(mine) // 2][0]]
                 / env.fac[mine[len(mine) // 2][1]]})
 
